@@ -265,6 +265,15 @@ pub fn worker(tier: &str, k: usize, n: usize, ctx: &mut Ctx) {
           ctx.states += 1;
           ctx.sample(20_000, 3, || json!({"text": text, "map": serde_json::to_value(&m).unwrap()}));
           c08_case(ctx, text, &m);
+          // the same map with an EMPTY names table when no segment uses a name (declared names
+          // are exactly those of M, and shortcuts keyed on "no names" must not change anything)
+          if with_content && m.segs.iter().all(|s| !matches!(s.orig, Some((_, _, _, Some(_))))) {
+            let mut m2 = m.clone();
+            m2.names.clear();
+            ctx.states += 1;
+            ctx.count("cases_with_empty_names_table");
+            c08_case(ctx, text, &m2);
+          }
         }
       }
     }
